@@ -29,7 +29,7 @@ EXPL = {
     "C05": "Wake discipline as postconditions: a worker that leaves the flush threshold reached, finishes service() or is about to block has pulled the trigger since its last wait (W1, W2, R5); the I/O-side flush notifies the producer whenever it leaves the backlog at or below the mark (W4); close flags / pending output make the channel writable.",
     "C11": "Decision monotonicity: server.add_task is reached only with neither close flag set and with requests_lock held; close_when_flushed is written under requests_lock together with requests == []; received() parses only while no close decision is visible under the lock; readable() is false after the decision; handle_write keeps the decision.",
     "C12": "Bound and release: at the append point of write_soon the backlog is at or below the high watermark or the client is gone (so pending <= watermark + one write), for every watermark/send_bytes value; the producer pulls the trigger before each wait; the I/O side notifies at or below the mark.",
-    "C13": "Role frames: on a worker no send may tear the channel down (do_close false at every send reachable from service), a worker never calls handle_close/close/del_channel; teardown only clears `connected`.",
+    "C13": "Listener safety: for every placement of OSError on accept(), setsockopt() and the HTTPChannel constructor (getsockopt/setblocking), nothing escapes handle_accept, the listener keeps accepting and at most one descriptor is added. Role frames: on a worker no send may tear the channel down (do_close false at every send reachable from service), a worker never calls handle_close/close/del_channel; teardown only clears `connected`.",
     "C19": "100-continue clauses: send_continue is called only for a partial expecting request whose headers are finished, with requests == [], the latch clear and requests_lock held (both call sites), it latches, and it does not change the request's completed flag; a pending request is never left completed when the lock is released.",
 }
 
@@ -39,6 +39,10 @@ def main_for(prop, argv=None, level="other"):
     res = chanworld.run(ck)
     pats = SELECT[prop] + (("frame:",) if prop == "C04" else ())
     world.report(ck, res, select=lambda n: any(p in n for p in pats))
+    if prop == "C13":
+        # listener safety: socket errors on accept / option calls / channel set-up never escape handle_accept nor stop the listener
+        res2 = world.run_functions(ck, ["server"], ["server.BaseWSGIServer.handle_accept"], timeout=20, hooks_mod="contracts.server")
+        world.report(ck, res2)
     ck.trusted.extend(TRUST)
     ck.assumptions.append(NOT_DECIDED)
     ck.assumptions.append("every interleaving is covered through the reduction, not by exploring schedules; failed discipline obligations have no data counterexample (no-failing-input-found)")
